@@ -153,6 +153,10 @@ def corrmtx(x_input, m, method='autocorrelation'):
         x = numpy.array(x_input)
     else:
         x = x_input.copy()
+    if x.dtype.kind in 'iub':
+        # integer samples: products formed from the data matrix (X'X, -X)
+        # do not fit a narrow or unsigned integer dtype
+        x = x.astype(float)
 
 
     if x.dtype == complex:
